@@ -329,6 +329,16 @@ func (s *sessionController) onEnterLoadSessionCheck() {
 	}
 }
 
+// aboutToRenegotiate resets the per-handshake bookkeeping of loadSession. A
+// renegotiation is a new handshake: for a ClientHello built by crypto/tls
+// (HelloGolang) clientHandshake loads the session again, which the tracker
+// would otherwise report as a second call within one handshake.
+func (s *sessionController) aboutToRenegotiate() {
+	if !s.locked {
+		s.loadSessionTracker = NeverCalled
+	}
+}
+
 // onLoadSessionReturn is intended to be invoked upon returning from the `conn.loadSession` function.
 // It serves as a validation step for the correctness of the underlying utls implementation.
 // If the utls implementation is incorrect, this function will trigger a panic.
